@@ -116,6 +116,17 @@ class KindAdapter(Adapter):
             # a no-op conversion (rna -> rna) on an unpickled copy takes the converting path (its moltype is not the
             # singleton any more) and re-bases the view: same string, different coordinates / feature mapping
             return "seq_new:pickle:noop-conversion-rebases-the-copy"
+        if self.kind.startswith("lf_") and anoms and anoms[0].startswith("differs[json]"):
+            # root causes visible in the observed values themselves (not in the history that produced them)
+            ad = detail.get("adapter_detail") or {}
+            fields = set(anoms[0].split(":", 1)[1].split(","))
+            ref_bprobs = (ad.get("bprobs") or {}).get("reference")
+            if "bprobs" in fields and ref_bprobs and min(ref_bprobs) < 1e-6:
+                # Setting.get_param_rule_dict lifts every probability of a partition to >= 1e-6 when exporting rules
+                return f"{self.kind}:json:partition-probability-below-1e-6-lifted-at-export:" + ",".join(sorted(fields))
+            if self.kind == "lf_rate_free" and "rates" in fields and "bprobs" not in fields and "rules" not in fields:
+                # the free rate classes live in a hidden PartitionDefn (rate_partition, user_param=False): never exported
+                return "lf_rate_free:json:fitted-free-rates-not-exported:" + ",".join(sorted(fields))
         if self.kind == "tree" and "bifurcating" in hist and anoms and anoms[0].startswith("differs[json]"):
             return "tree:json:unnamed-node-from-bifurcating:" + anoms[0].split(":", 1)[1]
         return f"{self.kind}:{method}:state={pre}:{('then=' + post + ':') if post else ''}{anom}"
